@@ -7,11 +7,11 @@ import "strings"
 var typeNames = []string{"T", "Person", "M", "S", "_x", "Ñame", "T1", "a", "Address", "π"}
 var memberNames = []string{"id", "name", "*", "col_1", "\"quoted col\"", "'q'", "1", "x", "añb", "_"}
 var colNames = []string{"id", "name", "t.id", "t.*", "*", "count(*)", "max(a, b)", "\"my col\"", "tbl.\"c\"", "f('x)', 1)", "c1", "t.name", "coalesce(x, 'a,b')"}
-var literals = []string{"1", "'lit'", "'it''s'", "\"dq\"", "NULL", "(1+2)", "f(1, 'a)')", "'$T.x'", "/* c */ 2", "1 -- c\n", "'a,b'", "''"}
+var literals = []string{"1", "'lit'", "'it''s'", "\"dq\"", "NULL", "(1+2)", "f(1, 'a)')", "'$T.x'", "/* c */ 2", "1 -- c\n", "'a,b'", "''", "'\\'", "'C:\\d\\'", "\"\\\"", "'a\\''b'"}
 var blanksGen = []string{" ", "", "  ", "\n", "\t", " /* c */ ", "\r\n", " -- x\n"}
 var sepTokens = []string{" ", "\t", "\n", "\r", "=", ",", "[", ">", "<", "+", "-", "/", "|", "%"}
 var opTokens = []string{"&", "!", "~", "^", ";", "?", "@", "#", ":", "]", ".", ")", "(", "*", "$", "&&", "||", "<>", "!="}
-var quoteTokens = []string{"'", "\"", "''", "\"\"", "'a'", "\"b\"", "'$T.x'", "\"&T.*\"", "'it''s'", "'(*) VALUES ($T.*)'"}
+var quoteTokens = []string{"'", "\"", "''", "\"\"", "'a'", "\"b\"", "'$T.x'", "\"&T.*\"", "'it''s'", "'(*) VALUES ($T.*)'", "'\\'", "\"\\\"", "'x\\'", "\\", "\\'"}
 var commentTokens = []string{"--", "/*", "*/", "-- c\n", "/* $T.x */", "/**/", "/* ' */", "-- '\n", "/* (*) VALUES ($T.*) */", "-", "/", "*"}
 var kwTokens = []string{"AS", "as", "As", "VALUES", "values", "Values", "VALUEſ", "aſ", "AS&", "ASX", "SELECT", "FROM", "WHERE", "INSERT INTO t", "IN", "AND"}
 var nonASCII = []string{"é", "日本", "\xff", "\xc3", "\xe2\x82", "ſ", "K", " ", " ", "٣", "\xf0\x9f\x98\x80", "\xed\xa0\x80", "\xc0\xaf"}
@@ -65,7 +65,7 @@ func (g *parseGen) list(item func() string) string {
 
 func (g *parseGen) outputExpr() string {
 	r := g.r
-	as := g.r.pick([]string{"AS", "as", "As", "aS"})
+	as := g.r.pick([]string{"AS", "as", "As", "aS", "AS", "as", "aſ", "Aſ"})
 	switch r.intn(8) {
 	case 0, 1:
 		return g.acc("&")
@@ -91,7 +91,7 @@ func (g *parseGen) outputExpr() string {
 
 func (g *parseGen) insertExpr() string {
 	r := g.r
-	values := r.pick([]string{"VALUES", "values", "Values", "VALUES", "VALUE", "VALUESX"})
+	values := r.pick([]string{"VALUES", "values", "Values", "VALUES", "VALUE", "VALUESX", "VALUEſ", "valueſ"})
 	switch r.intn(6) {
 	case 0, 1:
 		return "(" + g.bl() + "*" + g.bl() + ")" + g.bl() + values + g.bl() + g.list(func() string { return g.acc("$") })
